@@ -48,7 +48,7 @@ def dump_ssa(scratch):
     return out
 
 
-def overlay_file(scratch):
+def overlay_file(scratch, scripted=False):
     ov = {}
     for sub, rel in DIRMAP.items():
         d = os.path.join(VERIF, 'harness', sub)
@@ -56,7 +56,7 @@ def overlay_file(scratch):
             if f.endswith('.go'):
                 ov[os.path.join(REPO, rel, f)] = os.path.join(d, f)
     ovd = os.path.join(VERIF, 'harness', 'detect_overlay')
-    for f in sorted(os.listdir(ovd)):
+    for f in sorted(os.listdir(ovd)) if scripted else []:
         if f.endswith('.go'):
             ov[os.path.join(REPO, 'detect', f)] = os.path.join(ovd, f)
     p = os.path.join(scratch, 'overlay.json')
@@ -64,9 +64,9 @@ def overlay_file(scratch):
     return p
 
 
-def native_replay(scratch, pkg, record_path, timeout=180):
+def native_replay(scratch, pkg, record_path, timeout=180, scripted=False):
     """run the harness natively on a record. returns (failed, output)"""
-    ov = overlay_file(scratch)
+    ov = overlay_file(scratch, scripted)
     env = dict(GOENV, VERIF_REPLAY=record_path)
     r = sh(['go', 'test', '-vet=off', '-count=1', '-overlay', ov, '-run', '^TestVerifReplay$', '-timeout', '%ds' % timeout, '-v', '.'],
            cwd=os.path.join(REPO, DIRMAP[pkg]), env=env)
@@ -118,7 +118,7 @@ def main():
     if args.replay:
         rec = json.load(open(args.replay))
         pkg = rec.get('pkg') or P.get('pkg_of', {}).get(rec['harness'], 'root')
-        failed, out = native_replay(scratch, pkg, os.path.abspath(args.replay))
+        failed, out = native_replay(scratch, pkg, os.path.abspath(args.replay), scripted=bool(rec.get('scripted')))
         print(out[-3000:])
         if failed:
             print('VIOLATION property=%s replay=%s' % (args.prop, args.replay))
@@ -212,6 +212,7 @@ def main():
                 os.makedirs(replay_dir, exist_ok=True)
                 rec = x['record']
                 rec['pkg'] = job['pkg']
+                rec['scripted'] = any(x_ in ('workflow', 'fast') for x_ in job['opts'].get('stubs', []))
                 rec['obligation'] = {'kind': x['kind'], 'label': x['label'], 'pos': x['pos']}
                 name = hashlib.sha1(json.dumps(rec, sort_keys=True).encode()).hexdigest()[:12]
                 path = os.path.join(replay_dir, '%s-%s.json' % (job['harness'], name))
@@ -220,7 +221,7 @@ def main():
                 if len(violations) >= args.max_violations:
                     os.remove(path)
                     continue
-                failed, out = native_replay(scratch, job['pkg'], path)
+                failed, out = native_replay(scratch, job['pkg'], path, scripted=rec['scripted'])
                 if failed:
                     desc = '%s %s %s %s' % (job['harness'], x['kind'], x['label'], x['pos'])
                     k = next((k for k in known if k['match'] and k['match'] in desc), None)
